@@ -208,8 +208,11 @@ def rewrite (t : Str) : Option Str :=
 /-- `template.format(i)` -/
 def derive (t : Str) (i : Nat) : Option Str := (rewrite t).bind (fun t' => pyStrFormat t' i)
 
+/-- what follows the flags in the template text: `[width][.precision]d` -/
+def afterFlags (w p : Option Str) : Str :=
+  w.getD [] ++ ((match p with | some ps => '.' :: ps | none => []) ++ ['d'])
+
 /-- the template text for given regex groups -/
-def tmpl (flags : Str) (w p : Option Str) : Str :=
-  '%' :: (flags ++ (w.getD [] ++ ((match p with | some ps => '.' :: ps | none => []) ++ ['d'])))
+def tmpl (flags : Str) (w p : Option Str) : Str := '%' :: (flags ++ afterFlags w p)
 
 end BlueskyVerif.Printf
